@@ -20,6 +20,8 @@ change a *declaration* instead.  Each lint below decides one such mechanism as a
   format-arity         `"..%s..%s" % (a,)`-style formatting whose literal placeholder count cannot match the
                        operand (tuple of another length, or the lost-parentheses form `f(fmt % a, b)`): raises
                        TypeError on the path that executes it
+  rebound-constant     a module-level name bound twice with an import-time use in between (a table built at import
+                       captured the first object, functions that look the name up later get the second)
   table-concat         two adjacent string literals on one line inside a collection literal of strings (a lost
                        comma fuses two rows of a table)
 
@@ -414,7 +416,63 @@ def table_concat(repo: Repo, rels: Iterable[str]) -> List[Finding]:
     return out
 
 
-LINTS = (("shared-class-state", shared_class_state), ("stateful-cache", stateful_cache),
+# ---------------------------------------------------------------------------------------- rebound-constant
+def rebound_constant(repo: Repo, rels: Iterable[str]) -> List[Finding]:
+    """A module-level name bound twice at top level with an import-time use (module statement, class body, default
+    argument, decorator) in between: that user captured the first object, every function body sees the second."""
+    out: List[Finding] = []
+    for rel in rels:
+        mod = repo.modules.get(rel)
+        if mod is None:
+            continue
+        binds: Dict[str, List[ast.stmt]] = {}
+        for st in mod.tree.body:
+            tgts = []
+            if isinstance(st, ast.Assign):
+                tgts = [t for t in st.targets if isinstance(t, ast.Name)]
+            elif isinstance(st, ast.AnnAssign) and st.value is not None and isinstance(st.target, ast.Name):
+                tgts = [st.target]
+            for t in tgts:
+                binds.setdefault(t.id, []).append(st)
+        for name, sts in binds.items():
+            if len(sts) < 2:
+                continue
+            first, last = sts[0], sts[-1]
+            # the rebinding may itself be built from the old value (X = wrap(X)): still two objects
+            captured = None
+            for st in mod.tree.body:
+                if st.lineno <= first.lineno or st.lineno >= last.lineno:
+                    continue
+                for n in _import_time_nodes(st):
+                    if isinstance(n, ast.Name) and n.id == name and isinstance(n.ctx, ast.Load):
+                        captured = captured or n
+            if captured is not None:
+                out.append((mod, last, name,
+                            f"module-level `{name}` is bound at line {first.lineno} and bound again at line {last.lineno}, and "
+                            f"line {captured.lineno} uses it at import time in between: that user keeps the first object "
+                            f"while code that looks the name up when it runs gets the second"))
+    return out
+
+
+def _import_time_nodes(st):
+    """nodes of a module-level statement that are evaluated when the module is imported (function bodies excluded,
+    their decorators / defaults / annotations included)"""
+    stack = [st]
+    while stack:
+        n = stack.pop()
+        yield n
+        if isinstance(n, (ast.FunctionDef, ast.AsyncFunctionDef)):
+            stack.extend(n.decorator_list)
+            stack.extend(n.args.defaults)
+            stack.extend(d for d in n.args.kw_defaults if d is not None)
+            continue
+        if isinstance(n, ast.Lambda):
+            stack.extend(n.args.defaults)
+            continue
+        stack.extend(ast.iter_child_nodes(n))
+
+
+LINTS = (("rebound-constant", rebound_constant), ("shared-class-state", shared_class_state), ("stateful-cache", stateful_cache),
          ("override-signature", override_signature), ("copy-protocol", copy_protocol),
          ("builtin-eq-ne", builtin_eq_ne), ("format-arity", format_arity), ("table-concat", table_concat))
 
